@@ -12,16 +12,23 @@
     splits down to 1 byte, both at once) are run on the same binary and TLC
     validates the recorded traces against spec/Trace_Std.tla (Mode = "split"):
     prefix of the oracle at every step, equal output and status at the end,
-    equal consumption unless the final status is an error."""
-import json, os
-import wcorepipe, stdbuild, stdtrace, stdinputs
+    equal consumption unless the final status is an error.  Token decoders
+    (std/json, std/cbor): the token stream of every call is recorded and TLC
+    checks it against spec/TokenStream.tla - well-formed (lengths partition the
+    source, chains closed, structure balanced, UTF-8 not straddled) under every
+    schedule, and NORMAL FORM of the chunked run = normal form of the one-shot
+    run (a buffer boundary may only cut additive tokens); schedules include
+    1-byte source pieces and token buffers of 1, 2, 3 tokens; inputs include
+    generated JSON / CBOR documents (lib/tokgen.py)."""
+import json, os, random, threading
+import wcorepipe, stdbuild, stdtrace, stdinputs, tokgen
 from vlib import ToolingError
 
 META = {
     "level": "model_checking",
     "technique": "TLC explores every source/destination partition of generated coroutines under WuffsCore.tla (cgen-shaped resumption with cgen's own resumable sets) and the schedules are replayed on the compiled C; std decoders: traces of chunked runs validated by TLC against Trace_Std.tla (prefix-of-one-shot at every step)",
     "text": "Generated coroutines: exhaustive over all split points of inputs up to 3 bytes and destination capacities up to 3, including suspension inside multi-byte reads and nested calls; std decoders: exploration over corpus files and mutants with single splits, multi-splits and simultaneous source/destination splits, every call validated by TLC.",
-    "note": "Trusted: the TLA+ semantics and trace spec, TLC, the drivers. For std the oracle is the one-shot run of the same binary.",
+    "note": "Trusted: the TLA+ semantics and trace spec, TLC, the drivers. For std the oracle is the one-shot run of the same binary. Token decoders (std/json, std/cbor): the token streams are compared in the normal form of spec/TokenStream.tla (only additive tokens - strings, filler - may be cut by a buffer boundary; model-checked in TokenStreamMC.tla), token by token by TLC for inputs up to 16 KiB and by the driver's normal-form hash above.",
 }
 
 
@@ -79,6 +86,10 @@ def part_b(ctx):
             mp = os.path.join(mdir, "%s.%s%d" % (os.path.basename(p), kind, i))
             open(mp, "wb").write(stdinputs.mutate(data, rng, kind))
             inputs.append((mp, dec, extra, "mutant:" + kind))
+    # token decoders: generated JSON / CBOR documents and their mutants (own random stream: the other decoders' jobs stay as they were)
+    trng = random.Random(ctx.seed * 7919 + 5)
+    inputs += tokgen.write_docs(ctx.subdir("c05-tokdocs"), trng, 24 if thorough else 12, 20 if thorough else 10, mutants=2 if thorough else 1)
+    mc = token_model_start(ctx)
     odir = ctx.subdir("c05-oracle")
     # 1. one-shot oracle runs
     ojobs, meta = [], {}
@@ -121,6 +132,8 @@ def part_b(ctx):
                 piece = rng.choice([p_ for p_ in (1, 3, 64, 4096) if n // p_ <= (1500 if thorough else 200)] or [4096])
                 dp = rng.choice([p_ for p_ in (1, 5, 64, 4096) if max(1, outn) // p_ <= (1500 if thorough else 200)] or [4096])
                 scheds.append({"src": str(piece), "dst": str(dp), "dstmode": rng.choice(("grow", "compact")), "srcmode": rng.choice(("view", "fresh"))})
+        if kind == "token":
+            scheds += token_schedules(trng, m["dec"], n, max(1, outn), thorough)
         for sc in scheds:
             sc = stdinputs.avoid_known(m["dec"], m["input"], sc)
             jid += 1
@@ -151,9 +164,9 @@ def part_b(ctx):
         evs = sev.get(j["id"], [])
         oe = stdtrace.end_event(oev[meta[j["id"]]["oracle_job"]])
         if stdinputs.KIND.get(meta[j["id"]]["dec"]) == "token":
-            # a token decoder may split one source span into several `continued` tokens at a buffer boundary (documented):
-            # the token sequence is not an output byte stream; compare status and consumption (= total token length)
-            x = stdtrace.expect_from(oe, fields=("st", "cls", "in_total"))
+            # a token decoder may cut one token into several at a buffer boundary (documented): the RAW token sequence is not
+            # compared; status, consumption and the NORMAL FORM of the token stream are (clause NormalFormEqualsOracle)
+            x = stdtrace.token_expect(oe, oev[meta[j["id"]]["oracle_job"]])
         else:
             x = stdtrace.expect_from(oe)
         x["j"] = j["id"]
@@ -161,6 +174,7 @@ def part_b(ctx):
             evs = [evs[0], x] + evs[1:]
         traces.append((j["id"], evs))
     nev, rej = stdtrace.validate(ctx, traces, "split", "C05b")
+    tokmc = token_model_finish(mc)
     byid = {int(j["id"]): j for j in sjobs}
     for r in rej:
         m = meta.get(r["job"], {})
@@ -180,9 +194,62 @@ def part_b(ctx):
                              "decoder": m.get("dec"), "input_saved": saved, "schedule": m.get("class"), "clauses": r["clauses"], "event": ev,
                              "job": stdtrace.job_line(dict(byid.get(r["job"], {}), **({"in": saved} if saved else {})))})
     distinct = {(meta[j["id"]]["dec"], os.path.basename(meta[j["id"]]["input"]), json.dumps(meta[j["id"]]["class"], sort_keys=True)) for j in sjobs}
-    return {"jobs": len(sjobs), "oracle_jobs": len(ojobs), "events": nev, "distinct": len(distinct),
+    tokstats = stdtrace.token_stats({**{k: v for k, v in oev.items() if stdinputs.KIND.get(meta.get(k, {}).get("dec")) == "token"}, **sev})
+    tokstats["scheduled_jobs_compared_by_normal_form"] = sum(1 for j in sjobs if stdinputs.KIND.get(meta[j["id"]]["dec"]) == "token")
+    tokstats["normal_form_model"] = tokmc
+    return {"jobs": len(sjobs), "oracle_jobs": len(ojobs), "events": nev, "distinct": len(distinct), "tokens": tokstats,
             "samples": [{"decoder": meta[j["id"]]["dec"], "input": os.path.basename(meta[j["id"]]["input"]), "schedule": meta[j["id"]]["class"],
                          "calls": (stdtrace.end_event(sev.get(j["id"], [])) or {}).get("calls")} for j in sjobs[:: max(1, len(sjobs) // 5)][:5]]}
+
+
+TOKMC_CFG = ("SPECIFICATION Spec\nCONSTANTS Family = \"%s\" MaxTokens = %d MaxTotal = %d MaxPieces = %d FullContext = %s\n"
+             "INVARIANTS Invariant Idempotent Canonical Conserves SameAsDC Discriminates\nCHECK_DEADLOCK FALSE\n")
+
+
+def token_model_start(ctx):
+    """Design-level check of the token normal form (spec/TokenStreamMC.tla), run beside the driver: every re-splitting
+    of a chain of total length <= 6 between every kind of neighbour, and of every small stream, has the same normal
+    form; the normal form is idempotent, canonical, conserving, and tells illegitimate changes apart."""
+    thorough = ctx.tier == "thorough"
+    cfgs = [("chains", 3, 6, 4 if thorough else 3, "TRUE" if thorough else "FALSE"), ("streams", 3 if thorough else 2, 3, 3, "TRUE")]
+    box = {"res": [], "err": None}
+
+    def work():
+        try:
+            for c in cfgs:
+                box["res"].append(ctx.tlc_ok("TokenStreamMC", cfg="tsmc.cfg", data={"tsmc.cfg": TOKMC_CFG % c}, workers=4 if thorough else 3,
+                                             timeout=3000, label="TokenStreamMC %s total<=%d pieces<=%d" % (c[0], c[2], c[3])))
+        except BaseException as e:       # re-raised by token_model_finish in the main thread
+            box["err"] = e
+    th = threading.Thread(target=work)
+    th.start()
+    return th, box
+
+
+def token_model_finish(mc):
+    th, box = mc
+    th.join()
+    if box["err"] is not None:
+        raise box["err"]
+    return [{"config": r["label"], "logical_streams": r["distinct"], "wall_s": r["wall_s"]} for r in box["res"]]
+
+
+def token_schedules(rng, dec, n, ntok, thorough):
+    """Schedules aimed at the token path (piece-list semantics: spec/IOSchedule.tla; TokDstLists there): 1-byte source
+    pieces, token buffers of 1, 2, 3 tokens (not below the decoder's documented minimum), both at once."""
+    capmin = tokgen.TOKEN_CAP_MIN.get(dec, 1)
+    lim = 6000 if thorough else 1500
+    cands = []
+    for piece in (1, 1, 2, 3):
+        if n // piece <= lim:
+            cands.append({"src": str(piece), "srcmode": rng.choice(("view", "fresh")), "close": rng.choice(("end", "late"))})
+    for cap in (1, 2, 3):
+        if cap >= capmin and ntok // cap <= lim:
+            cands.append({"dst": str(cap)})
+            if n // 2 + ntok // cap <= lim:
+                cands.append({"src": str(rng.choice((1, 2, 5))), "dst": str(cap), "srcmode": rng.choice(("view", "fresh")), "close": rng.choice(("end", "late"))})
+    rng.shuffle(cands)
+    return cands[: (6 if thorough else 3)]
 
 
 def run(ctx):
@@ -202,6 +269,7 @@ def run(ctx):
     cov["std_scheduled_jobs"] = pb["jobs"]
     cov["std_events_validated_by_tlc"] = pb["events"]
     cov["std_distinct_decoder_input_schedule"] = pb["distinct"]
+    cov["std_token_streams"] = pb["tokens"]
     cov["samples"] = [{"program": h["progname"], "input": h["input"], "history": h["hist"]} for h in nonempty[:: max(1, len(nonempty) // 3)][:3]] + pb["samples"]
     ctx.evidence("model_checking", cov, assumptions=[
         "generated coroutines: exhaustive inside the bounds of coverage.bounds; std decoders: sampled schedules (exploration) on corpus files and mutants",
